@@ -220,6 +220,10 @@ def _index_type_instances():
     for lit, ok in (("0", True), ("3", True), ("4", False), ("-1", False), ("+1", True), ("0x3", True), ("0x4", False),
                     ("03", True), ("04", False), ("1.0", False), ("1.5", False)):
         out.append(dict(part="index-type", src=f"export function f() -> void {{ int[4] a; a[{lit}]; }}", expect=ok))
+    # constants beyond 32 and 64 bits, in every spelling: far outside every extent, whatever their low bits are
+    for lit in ("4294967296", "4294967298", "0x100000000", "0x100000002", "0x200000001", "040000000001", "040000000000", "18446744073709551616", "0x10000000000000001", "2147483648", "0x80000000", "0xFFFFFFFF"):
+        for cont, acc in (("int[4] a", "a[{0}]"), ("int[2][4] a", "a[1][{0}]"), ("int[2][4] a", "a[{0}][1]"), ("float4 a", "a[{0}]"), ("float3x3 a", "a[{0}][0]"), ("float3x3 a", "a[0][{0}]")):
+            out.append(dict(part="index-type", src=f"export function f() -> void {{ {cont}; {acc.format(lit)}; }}", expect=False, label=f"constant index {lit}"))
     # suffixed spellings the lexer tokenises as integer constants: out of range stays out of range ("only if" direction of the statement;
     # whether an in-range suffixed constant is accepted is not fixed by it)
     for lit in ("4u", "4U", "7l", "0x4u", "04u", "9ul", "4LL", "100u"):
